@@ -318,6 +318,9 @@ class Chipset(object):
         args = [addr(reg) for reg in args]
         data = b''.join([pack(">H", reg) for reg in args])
         data = self._read_register(data)
+        if len(data) < len(args):
+            self.log.error("missing register values in response")
+            raise IOError(errno.EIO, os.strerror(errno.EIO))
         return list(data) if len(data) > 1 else data[0]
 
     def _read_register(self, data):
